@@ -289,7 +289,8 @@ CLAIMS["C04"] = dict(
          "C04_declined_untouched; a closure variable is shown to the handler and never re-bound: "
          "C04_closure_never_rebound). " + TIE + "Oracle: overriding probes (constant, context-dependent, conditional — "
          "as a setter that declines and as a filtered stream —; nested with plain probes, through direct and call-path "
-         "selectors) against the substituted twin program.",
+         "selectors) against the substituted twin program; an override on a @tooled / tooled.inplace function under and "
+         "inside a probe of another variable of it, against the override alone (finding F39).",
     design_ref="DESIGN.md section 5, C04",
     note=NOTE_M2,
 )
